@@ -449,6 +449,34 @@ def handle (op : String) : P String := do
         | .triple v => v.all (·.all (·.all ok))
         | .quadruple v => v.all (·.all (·.all (·.all ok)))
       s!"{skel} inrange {rBool inRange}"))
+  | "rnd.mixed" => do
+    -- a sequence of draws and shuffles on ONE generator: `g lo hi` (one draw) or `s n` (shuffle 0..n-1)
+    let seed ← nat; let k ← nat
+    let mut g := Rng.create seed
+    let mut out : List String := []
+    let mut failed : Option Err := none
+    for _ in [0:k] do
+      let kind ← tok
+      if kind == "g" then
+        let lo ← flt; let hi ← flt
+        if failed.isNone then
+          match Rng.generate g lo hi with
+          | .ok (g', v) => g := g'; out := out ++ [rF v]
+          | .error e => failed := some e
+      else
+        let n ← nat
+        if failed.isNone then
+          match Rng.shuffle F g (List.range n) with
+          | .ok (g', l) => g := g'; out := out ++ ["[" ++ rNats l ++ "]"]
+          | .error e => failed := some e
+    match failed with
+    | some e => pure s!"err {e.toString}"
+    | none => pure s!"ok {g.current} {" ".intercalate out}"
+  | "obj.reset" => do
+    -- `set_objective` called twice on one network: the second call decides alone
+    let _o1 ← obj; let _c1 ← clampOpt
+    let o ← obj; let c ← clampOpt; let p ← tensor; let t ← tensor
+    pure (respond (o.loss c p t) (fun r => s!"{rF r.1} {rTensor r.2}"))
   | "rnd.shuffle" => do
     let seed ← nat; let n ← nat; let vals ← many nat n
     pure (respond (Rng.shuffle F (Rng.create seed) vals) (fun r => s!"{r.1.current} {rNats r.2}"))
